@@ -1360,9 +1360,10 @@ func execAnotherModule(vm *r.VM, libInfo r.LibNameInfo) (*r.Module, error) {
 		// #4. the module's symbols have been popped when its body ended: declare its
 		// methods & types again (at root level), so that an imported method could still
 		// use other methods & types of its own module when it is called later
+		// (the module's own definition of a name wins over a definition of the same name
+		// it has imported, as it did while the body was running)
 		for name, val := range module.GetAllExportValues() {
-			// (a name the module has imported itself keeps its imported value)
-			_ = vm.DeclareConstElement(r.NewIDName(name), val)
+			_ = vm.RedeclareConstElement(r.NewIDName(name), val)
 		}
 
 		vm.PopCallFrame()
